@@ -118,12 +118,52 @@ def judge(res: Result, case: Dict[str, Any], vals: List[Any], typ, k: int, get_t
                     return
 
 
+def mock_stage() -> Result:
+    """Values whose class exists once per INSTANCE (unittest.mock objects: every Mock() is the only instance of its own
+    subclass), evaluated once and merged with ordinary values in every order: membership only (re-evaluating such an
+    expression gives another class, so the enumeration above cannot hold them)."""
+    import itertools
+    from unittest import mock
+
+    from monkeytype.typing import get_type, shrink_types
+
+    res = Result()
+    for mk in (mock.Mock, mock.MagicMock, mock.NonCallableMock):
+        m1, m2 = mk(), mk()
+        groups = [[m1, 1], [m1, m2, None], [[m1], [1, 2]], [{"a": m1}, {"a": 1}], [(m1, 1), (1, 1)], [m1, [m2], "s"]]
+        for vals in groups:
+            for k in (0, 3):
+                types = [get_type(v, k) for v in vals]
+                for order in itertools.permutations(range(len(vals))):
+                    res.states += 1
+                    res.transitions += 1
+                    res.evaluations += 1
+                    res.validated += 1
+                    case = {"values": [f"{mk.__name__}-group-{groups.index(vals)}"], "k": k, "order": list(order), "mock": True}
+                    try:
+                        T = shrink_types([types[i] for i in order], k)
+                    except Exception as e:  # noqa: BLE001
+                        res.violate(Violation(ID, "exception", "mock-values", case, f"shrink_types raised {e!r}"))
+                        continue
+                    bad = [v for v in vals if not O.member(v, T)]
+                    if bad:
+                        res.violate(Violation(ID, "nonmember", "mock-values", case, f"values {vals!r} merged in order {order} at k={k}: {O.show(T)} does not admit {bad[0]!r}"))
+                    else:
+                        res.nontrivial_n += 1
+    res.oblige("mock-values", True)
+    return res
+
+
 def run(ctx: Ctx) -> Result:
     res = IC.run_inference(ctx, ID, judge)
+    res.merge(mock_stage())
+    res.obligations.setdefault("mock-values", False)
     for a in ("all_td", "all_td_oversize", "all_equal", "all_lists", "mixed"):
         res.obligations.setdefault(f"arm:{a}:k>0", False)
     return res
 
 
 def replay(case: Dict[str, Any], ctx: Ctx) -> List[Violation]:
+    if case.get("mock"):
+        return mock_stage().violations
     return IC.replay_case(case, judge)
